@@ -74,6 +74,7 @@ def main():
             return 2
     ctx = Ctx(facts, tier=tier, repo=a.repo, work=work)
     ctx.seed = seed
+    ctx.rmeta = facts[:-5] + '.d/libgdsl.rmeta' if facts.endswith('.json') else None
     spec = props.PROPS[pid]
     obligations = []
     errors = []
@@ -125,10 +126,12 @@ def main():
     if not a.no_evidence:
         write_evidence(pid, spec, tier, seed, ctx, obligations, viol, kf, counts, floors, wall, facts)
     if not a.facts:
+        import shutil
         try:
             os.remove(facts)
         except OSError:
             pass
+        shutil.rmtree(facts[:-5] + '.d', ignore_errors=True)
     print('%s: %d obligations, %d discharged, %d known findings, %d violations (%.1fs, tier=%s)' % (
         pid, len(obligations), sum(1 for o in obligations if o['ok']), len(kf), len(viol), wall, tier))
     return 1 if viol else 0
